@@ -80,7 +80,9 @@ pub fn csi2(a: u32, b: u32, fin: &str, r: &mut Rng) -> String {
     }
 }
 
-pub const PRINTABLE: &[char] = &['a', 'b', 'c', 'x', ' ', ' ', 'q', '~', '`', '\u{7f}', 'é', '世', '\u{a0}', '─', 'Z', '0'];
+// incl. characters above U+00FF whose LOW BYTE lies in the drawing range 0x60-0x7E (ち U+3061, 乱 U+4E71, Ÿ U+0178),
+// double-width characters (世, 漢), a combining mark and a character outside the BMP
+pub const PRINTABLE: &[char] = &['a', 'b', 'c', 'x', ' ', ' ', 'q', '~', '`', '\u{7f}', 'é', '世', '\u{a0}', '─', 'Z', '0', 'ち', '乱', 'Ÿ', '漢', '\u{301}', '\u{1f600}'];
 
 pub fn print(r: &mut Rng) -> String {
     r.pick(PRINTABLE).to_string()
